@@ -190,7 +190,11 @@ type Fail = (&'static str, String, usize);
 
 fn run_history(topo: &Topo, steps: &[Step], stats: &mut Stats) -> Result<(), Fail> {
     let n = topo.n();
-    let (mut engine, _txs) = fixtures::engine_with_rec_txs(&topo.ins, TradingState::Disabled);
+    // half of the histories run with algorithmic trading enabled: a scripted strategy then reacts to some notices by
+    // issuing an order on the very tick of the notice - sometimes while that exchange's execution link is gone too
+    // (a real outage), which makes the tick end in a fatal delivery error. The notice must be reported all the same.
+    let enabled = steps.len() % 2 == 1;
+    let (mut engine, txs) = fixtures::engine_with_rec_txs(&topo.ins, if enabled { TradingState::Enabled } else { TradingState::Disabled });
     // model: (market healthy, account healthy) per exchange; everything starts reconnecting
     let mut model = vec![(false, false); n];
     let healthy = |h: Health| h == Health::Healthy;
@@ -216,7 +220,23 @@ fn run_history(topo: &Topo, steps: &[Step], stats: &mut Stats) -> Result<(), Fai
         }
 
         let event = topo.event(step, idx);
+        let reacts = enabled && step.k.is_notice() && step.var % 3 == 0;
+        let link_gone = reacts && step.var % 2 == 0;
+        if reacts {
+            let instr = topo.instr_of[e][0];
+            engine.strategy.push((vec![], vec![fixtures::req_open(e, instr, &format!("n{idx}"), Side::Buy, Decimal::from(100), Decimal::ONE)]));
+            stats.cells.push(if link_gone { "strategy_reacts_to_notice_while_execution_link_is_gone".into() } else { "strategy_reacts_to_notice_with_an_order".into() });
+            if link_gone {
+                txs[e].set_mode(fixtures::TxMode::Closed);
+            }
+        }
         let audit = catch(|| engine.process(event)).map_err(|m| ("panic_in_engine_process", format!("event #{idx} {step:?}: {m}"), idx))?;
+        if link_gone {
+            txs[e].set_mode(fixtures::TxMode::Healthy);
+        }
+        for tx in &txs {
+            let _ = tx.drain();
+        }
         stats.events += 1;
 
         // model transition
@@ -296,7 +316,10 @@ fn run_history(topo: &Topo, steps: &[Step], stats: &mut Stats) -> Result<(), Fai
             K::AR => (vec![], vec![id]),
             _ => (vec![], vec![]),
         };
-        if market_out != want_market || account_out != want_account || (step.k.is_notice() && other_out != 0) {
+        // the strategy's own orders show up as one further output when they could be delivered (on a fatal delivery
+        // error the engine drops that output - documented - and keeps what the event itself produced)
+        let want_other = if reacts && !link_gone { 1 } else { 0 };
+        if market_out != want_market || account_out != want_account || (step.k.is_notice() && other_out != want_other) {
             return Err((
                 "disconnect_output_mismatch",
                 format!(
@@ -456,6 +479,8 @@ fn main() {
             "global_became_reconnecting",
             "notice_on_already_reconnecting_link",
             "notice_while_another_exchange_reconnecting",
+            "strategy_reacts_to_notice_with_an_order",
+            "strategy_reacts_to_notice_while_execution_link_is_gone",
             "exchanges:1",
             "exchanges:2",
             "exchanges:3",
